@@ -916,7 +916,8 @@ class Fxp():
                 new_val = np.array(list(map(int, new_val.flatten())), dtype=val_dtype).reshape(new_val.shape)
             
             if index is not None:
-                self.val[index] = new_val
+                # (a 0-d object array assigned to one element of an object array would be stored as an array object)
+                self.val[index] = new_val.item() if (val_dtype == object and new_val.ndim == 0) else new_val
             else:
                 self.val = new_val
 
